@@ -503,7 +503,8 @@ def run_check(prop, tier, seed, replay, ncases, no_build=False):
     elif build_fail is None:
         build_fail = ("binaries", "trh or trdriver missing", "")
 
-    # 5. classify failures
+    # 5. classify failures (cases on which an implementation-side monitor fired first: they carry a failing input)
+    failing.sort(key=lambda cf: 0 if cf[1].monitor else 1)
     idx = 0
     reported_kinds = set()
     for case, ctx in failing[:50]:
